@@ -142,6 +142,7 @@ func rmain() (code int) {
 			}
 		}
 	}
+	theProg = p
 	d.Run(p, r)
 	if *dumpObs {
 		for _, o := range r.Obs {
